@@ -12,6 +12,7 @@ import (
 var Checks = map[string]vk.Check{
 	"C04": C04,
 	"C10": C10,
+	"C12": C12,
 }
 
 // TestWorker is the entry point of the worker binary (`go test -c`): synctest needs a
